@@ -33,21 +33,15 @@ TRUSTED = [
     "of map-range sites, set.Set.ToSlice uses, time.Now / math/rand / go-statement sites",
     "cosmos-sdk, CometBFT ABCI types, IAVL, geth interpreter: executed, not modelled",
 ]
-# GasUsed of txs rejected BEFORE the ante handler is compared on its own channel (baseapp reports the block context's gas meter
-# for them, so anything BeginBlock does differently on one node leaks into it).
-#  * fixed by /repo 1a0e058: x/capability re-initialised its mem store in the first BeginBlock after a restart (+27843 gas);
-#  * still open (reported to the coordinator): cosmos-sdk x/upgrade keeps a process-local `downgradeVerified` flag and spends
-#    ONE extra store-iterator step (IterNextCostFlat = 30 gas) in the first BeginBlock of every process lifetime, so a restarted
-#    replica reports exactly +30 gas for such txs in its first block.
-# STRICT_PREANTE_GAS = True: every difference on that channel is a violation.  False: a difference of exactly one of the
-# KNOWN_PREANTE_DELTAS is recorded in the evidence ("finding:…" histogram key) without failing; ANY OTHER difference on the channel
-# (e.g. the capability regression) is still a violation.
-STRICT_PREANTE_GAS = False
-KNOWN_PREANTE_DELTAS = {30}
+# GasUsed of txs rejected BEFORE the ante handler (GasWanted = 0) is compared on its own channel: baseapp reports the block
+# context's gas meter for them, so anything BeginBlock did differently on one node used to leak into LastResultsHash (restart
+# findings: x/capability mem-store re-initialisation +27843, x/upgrade downgrade check +30).  /repo b776679 runs the module
+# BeginBlockers on their own meter; the channel is strict: any difference is a violation.
+STRICT_PREANTE_GAS = True
 
 
 def _preante_strict(obs):
-    return STRICT_PREANTE_GAS or int(obs.get("preante_max_delta", 0)) not in KNOWN_PREANTE_DELTAS
+    return STRICT_PREANTE_GAS
 
 
 HARNESS_TIMEOUT = {"quick": 420, "thorough": 7200}
